@@ -164,7 +164,7 @@ func errPayload(code string) []byte {
 
 // reply answers a pending request with the given outcome class and hands the
 // answer to the gateway. It returns false if the request is gone.
-func (s *Sim) reply(r *mqReq, out, arg string) bool {
+func (s *Sim) reply(r *mqReq, out, arg string, metas ...string) bool {
 	if !s.w.mq.take(r) {
 		return false
 	}
@@ -196,6 +196,11 @@ func (s *Sim) reply(r *mqReq, out, arg string) bool {
 		payload = errPayload("test.custom")
 		rec["kind"], rec["code"] = "error", "test.custom"
 	default:
+		if strings.HasPrefix(out, "code:") {
+			payload = errPayload(out[5:])
+			rec["kind"], rec["code"] = "error", out[5:]
+			break
+		}
 		switch r.typ {
 		case "get":
 			payload = s.replyGet(r, rec)
@@ -208,6 +213,13 @@ func (s *Sim) reply(r *mqReq, out, arg string) bool {
 		default:
 			payload = []byte(`{"result":null}`)
 			rec["kind"] = "result"
+		}
+	}
+	if len(metas) > 0 && metas[0] != "" && err == nil {
+		var m map[string]json.RawMessage
+		if json.Unmarshal(payload, &m) == nil {
+			m["meta"] = json.RawMessage(metas[0])
+			payload = mustJSON(m)
 		}
 	}
 	s.w.add(rec)
